@@ -4,6 +4,7 @@
 
 mod clim;
 mod hist;
+mod mem;
 mod par;
 mod props;
 mod refmodel;
@@ -23,6 +24,9 @@ fn usage() -> ! {
 	eprintln!("usage: verif check <Cxx> [--tier quick|thorough] [--jobs N]\n       verif replay <file>\n       verif list");
 	std::process::exit(2);
 }
+
+#[global_allocator]
+static ALLOC: mem::Counting = mem::Counting;
 
 fn main() {
 	let args: Vec<String> = std::env::args().skip(1).collect();
